@@ -88,6 +88,8 @@ PROBES = ["start_while_starting", "start_while_stopping", "stop_while_starting",
           "stop_by_own_device", "refused_game_mode", "priority_override", "switch_while_active", "var_flip_while_active",
           "game_started", "game_ended", "ball_started", "game_drain", "game_add_player_request", "game_end_request",
           "ball_end_with_game_mode_active", "delayed_control_event_in_active", "delayed_control_event_in_stopping",
+          "var_change_then_stop_hops_0", "var_change_then_stop_hops_1", "var_change_then_stop_hops_2",
+          "var_change_then_stop_hops_3", "var_change_then_stop_hops_4",
           "stop_with_delayed_control_event_pending", "stop_accepted_while_starting", "stop_accepted_and_put_off", "wait_queue_run", "wait_queue_restart_same_instant", "registry_compared_in_game", "registry_after_game_mode_stop",
           "registry_compared_after_game"]
 REAL = ["mpf.core.mode.Mode", "mpf.core.mode_controller.ModeController", "mpf.core.config_player.ConfigPlayer and the "
@@ -183,7 +185,8 @@ def _gen_op(ch, focus, allow_burst=True):
     kind = ch.weighted("op", [("req", 10), ("trigger", 5), ("group", 1), ("var", 1),
                               ("switch", 3 if ("dev" in focus or "coded" in focus) else 1),
                               ("checkpoint", 0.7), ("burst", 1.5 if allow_burst else 0), ("clear_holds", 0.4),
-                              ("restart", 1.5 if allow_burst else 0)])
+                              ("restart", 1.5 if allow_burst else 0),
+                              ("var_stop", 2.5 if ("players" in focus or "coded" in focus) else 0)])
     op = {"op": kind}
     if kind == "req":
         op.update(_gen_request(ch, focus))
@@ -197,6 +200,12 @@ def _gen_op(ch, focus, allow_burst=True):
     elif kind == "switch":
         op["switch"] = ch.pick("sw", SWITCHES + (GAME_SWITCHES * 2 if "gshots" in focus else []))
         op["state"] = ch.choice("sw_state", 2)
+    elif kind == "var_stop":
+        # the subscribed machine variable changes and a stop request follows a few loop iterations (call_soon hops)
+        # later: the subscription has fired, its task/done-callback chain is somewhere on its way
+        op["mode"] = ch.pick("var_stop.mode", [x for x in focus if x in ("players", "coded")])
+        op["hops"] = ch.choice("var_stop.hops", 7)
+        op["via"] = ch.pick("var_stop.via", ["direct", "event"])
     elif kind == "restart":
         # stop and start again in one instant (either order), the wait-queue mode mostly through queue events
         mode = ch.weighted("restart.mode", [(x, 4 if x == "wq" else 1) for x in focus])
@@ -230,6 +239,12 @@ def plan(ch, tier):
     if game:
         focus = sorted(set(focus) | {"gshots"})
     hooks = [_gen_hook(ch.sub("h%d" % i), focus) for i in range(ch.weighted("nhooks", [(0, 3), (1, 3), (2, 2), (4, 1)]))]
+    if "players" in focus and ch.flag("players_restart_hook", 0.4):
+        # restart from a handler of the mode's own `stopped` event (same pass as the stop)
+        hooks.append({"mode": "players", "phase": "stopped", "prio": ch.pick("players_restart_prio", [1, 1000000, -1000000]),
+                      "script": [{"req": {"kind": "start", "mode": "players",
+                                          "via": ch.pick("players_restart_via", ["direct", "event"])}}
+                                 for _ in range(1 + ch.choice("players_restart_n", 3))]})
     if "wq" in focus and ch.flag("wq_stopping_hook", 0.5):
         # with a handler on mode_wq_stopping the stop completes inside a dispatcher task: requests that are already
         # queued on the bus are then processed between `stopped` and the clean-up of the run
@@ -847,6 +862,25 @@ def execute(ctx, plan):
                 ctx.probe("switch_while_active")
             ctx.log("switch", op["switch"], op["state"], t=now())
             sim.hit_switch(op["switch"], op["state"])
+        elif kind == "var_stop":
+            cur = m.variables.get_machine_var("c07_flag")
+            ctx.log("var_stop", op["mode"], op["hops"], op["via"], cur, t=now())
+            if st[op["mode"]]["last"] == "started":
+                ctx.probe("var_change_then_stop_hops_%d" % min(op["hops"], 4))
+            m.variables.set_machine_var("c07_flag", 0 if cur else 1)
+            r = {"kind": "stop", "mode": op["mode"], "via": op["via"]}
+
+            def hop(left):
+                if abort[0]:
+                    return
+                if left > 0:
+                    loop.call_soon(_mark(partial(hop, left - 1)))
+                else:
+                    request(r, "op")
+            if op["hops"] == 0:
+                request(r, "op")
+            else:
+                loop.call_soon(_mark(partial(hop, op["hops"] - 1)))
         elif kind == "clear_holds":
             for hid in sorted(holds.keys()):
                 clear_hold(hid)
